@@ -84,8 +84,12 @@ for _p in ("C01", "C02", "C04", "C09", "C16"):
     tracker(_p)
 
 SSHD_ASSUME = [
-    "bytes, not runes: every class of the generated regexes contains all or no non-ASCII runes (go2v refuses others), so byte-level matching equals Go's rune-level matching",
-    "the model's matcher is the backtracking leftmost-first matcher; that RE2 returns the same match for these flat patterns is assumed and exercised by the correspondence",
+    "bytes vs runes: every class of the generated regexes contains all or no non-ASCII runes; a single-character item over a class WITH them that is not the head of x+ is the rune item IRune "
+    "(one utf8.DecodeRuneInString step; the final `.` of reverseMappingCheckFailedRE / doesNotMapBackToAddrRE), all other items are byte items; go2v refuses (UNSUPPORTED) a pattern that is not "
+    "rune-safe (Model/RegexSpec.v rune_safe: a greedy star over such a class is followed by an ASCII literal, an ASCII-only class byte, $ or the pattern's end; matches start at an ASCII literal or ^), "
+    "and C06_regex_all_patterns_rune_safe re-checks it of the generated list; that Go's rune-level matching equals the model on rune-safe patterns is assumed and exercised directly (stage prims)",
+    "the model's matcher is PROVED sound, complete and priority-correct against a declarative leftmost-first / greedy semantics (C06_regex_*); that Go's regexp returns that match for these flat "
+    "patterns is assumed and exercised by the correspondence, per event (stage sshd) and per FindStringSubmatchIndex call (stage prims)",
     "lines longer than 160 bytes are judged by the oracle only (the model's matcher is polynomial, Go's linear)",
     "data values in which json.Marshal replaced invalid UTF-8 are not compared byte for byte",
     "select with both arms ready is not generated: the hand-off is either taken (reader ready, ctx live) or cancelled (ctx cancelled, no reader)",
@@ -369,10 +373,12 @@ PRIMS_REGEX_ASSUME = [
     "priority-correct against a declarative leftmost-first / greedy semantics (Model/RegexSpec.v: Parse, lex_ge, Best; theorems C06_regex_* in Props/C06.v); what stays "
     "assumed is that Go's regexp implements that semantics for these flat patterns - now exercised directly: stage prims -mode regex calls FindStringSubmatchIndex and "
     "MatchString of the package's own compiled patterns on texts generated from each pattern's structure and compares ALL indices with the model in Coq",
-    "bytes vs runes, made precise: a pattern is rune-safe (Model/RegexSpec.v rune_safe, recomputed in Coq for every pattern on every run) when every class holds all or "
-    "none of the bytes >= 0x80, every single-byte item over an all-high class is the head of x+ and every greedy star over one is followed by an ASCII literal, an "
-    "ASCII-only class byte, $ or the pattern's end; for such patterns the comparison runs on ALL texts (multi-byte runes, invalid UTF-8, NUL); for the others "
-    "on ASCII texts only, the rest being counted as outside the domain",
+    "bytes vs runes, made precise: a pattern is rune-safe (Model/RegexSpec.v rune_safe; the harness computes it from regexp/syntax, the Coq checker recomputes it from the "
+    "generated item list and the two must agree, case RP) when every class holds all or none of the bytes >= 0x80, every single-BYTE item over an all-high class is the head of x+ "
+    "(elsewhere go2v emits the rune item IRune) and every greedy star over one is followed by an ASCII literal, an ASCII-only class byte, $ or the pattern's end; all 20 patterns "
+    "are rune-safe (go2v refuses others), so the comparison runs on ALL texts (multi-byte runes, invalid UTF-8, NUL); for a pattern that were not, only ASCII texts would be "
+    "compared and the rest counted as outside the domain. Proved at byte level: ASCII offsets and the end of the text are rune boundaries of Go's decoding loop in any byte string, "
+    "a rune-safe star ends at one, IRune consumes one decoding step (C06_regex_ascii_offset_is_boundary, _star_ends_at_boundary, _rune_item_is_one_step)",
 ]
 PRIMS_STRINGS_ASSUME = [
     "Lib/GoStrings.v and Model/SshdProc.atoi are tied function by function to package strings / strconv.Atoi (stage prims -mode strings) and characterised by the "
